@@ -769,8 +769,9 @@ class Parser:
             scrut = self.expr(no_struct=True)
             self.expect("{")
             arms = []
+            arm_attrs = []      # attributes of the arms (`#[cfg(..)] Pat => ..`), parallel to `arms`
             while not self.at("}"):
-                self.attrs()
+                arm_attrs.append(self.attrs())
                 pat = self.pattern()
                 guard = None
                 if self.at_kw("if"):
@@ -783,7 +784,7 @@ class Parser:
                     if not self.at("}") and body.kind not in ("block", "if", "match", "unsafe", "loop", "while", "for"):
                         self.err("expected ',' after match arm")
             self.expect("}")
-            return N("match", scrut=scrut, arms=arms)
+            return N("match", scrut=scrut, arms=arms, arm_attrs=arm_attrs)
         if t.text == "loop":
             self.i += 1
             return N("loop", body=self.block(), label=label)
@@ -1212,9 +1213,9 @@ def type_name(ty):
     return ty.form
 
 
-def find_fn(items, name, impl_of=None, trait=None, trait_arg=None):
+def find_fn(items, name, impl_of=None, trait=None, trait_arg=None, target_arg=None):
     """function `name`; inside `impl <impl_of>` (optionally `impl <trait> for <impl_of>`, optionally
-    `impl <trait><trait_arg> for <impl_of>`) when given"""
+    `impl <trait><trait_arg> for <impl_of>`, optionally `impl <impl_of><target_arg>`) when given"""
     hits = []
     for it in items:
         if it.kind == "fn" and impl_of is None and it.name == name:
@@ -1223,6 +1224,11 @@ def find_fn(items, name, impl_of=None, trait=None, trait_arg=None):
             tn = type_name(it.trait) if it.trait is not None else None
             if trait is not None and tn != trait:
                 continue
+            if target_arg is not None:
+                # `impl AutoStream<std::io::Stdout>` next to `impl AutoStream<std::io::Stderr>`
+                gargs = getattr(it.target, "args", None) or []
+                if [type_name(a) for a in gargs[:1]] != [target_arg]:
+                    continue
             if trait_arg is not None:
                 targs = getattr(it.trait, "args", None) or []
                 if [type_name(a) for a in targs[:1]] != [trait_arg]:
@@ -1234,7 +1240,7 @@ def find_fn(items, name, impl_of=None, trait=None, trait_arg=None):
                     hits.append(sub)
         elif it.kind in ("mod",):
             try:
-                hits.append(find_fn(it.items, name, impl_of, trait, trait_arg))
+                hits.append(find_fn(it.items, name, impl_of, trait, trait_arg, target_arg))
             except KeyError:
                 pass
     if len(hits) != 1:
